@@ -628,7 +628,12 @@ def eval_solid(ctx, case):
     res, err = call_is_inside(ph, P)
     kind = solid["kind"].split(":")[0]
     if err is not None:
-        ctx.fail("Polyhedron.is_inside:raises:" + kind, "is_inside raised on a valid non-convex mesh", slim(case, []), err)
+        if "Triangulation failed" in err:
+            ctx.fail("Polyhedron.is_inside:raises:polytri-triangulation-failed",
+                     "is_inside raised 'Triangulation failed' (polytri) on a valid mesh whose caps have non-adjacent collinear edges",
+                     slim(case, [0]), err)
+        else:
+            ctx.fail("Polyhedron.is_inside:raises:" + kind, "is_inside raised on a valid non-convex mesh", slim(case, []), err)
         return
     compare_expect(ctx, "Polyhedron", res, expect, case, labels,
                    "winding test rejects a point of the solid (non-convex mesh, point in a closed cell/prism of the decomposition)",
